@@ -59,7 +59,7 @@ static void check_result_against_reference(H<T>& h, R const& result, std::size_t
     if (sym::bit_precise && N > 2) return;   // compensated and plain summation differ in the last bits for N > 2
     if (N >= 1 && !sym::bit_precise)
     {
-        h.check("C02|result.value_is_sum_over_N", h.eq(result.value() * T(N), sum));
+        h.check("C01,C02|result.value_is_sum_over_N", h.eq(result.value() * T(N), sum));
     }
     if (N >= 2 && !sym::bit_precise)
     {
@@ -252,6 +252,25 @@ static void ob_multi_channel(H<T>& h)
     }
     std::vector<std::size_t> enabled;
     for (std::size_t i = 0; i != C; ++i) if (!wz[i]) enabled.push_back(i);
+
+    if (h.get("allzero", 0) != 0)
+    {
+        // a weight vector without any enabled channel: the code may reject it (exception), but if it performs the
+        // iteration the consumption of generator output must not depend on the weights (C10)
+        std::vector<T> const zeros(C, T(0.0));
+        try
+        {
+            hep::multi_channel_result<T> const r =
+                hep::multi_channel_iteration(hep::make_multi_channel_integrand<T>(f, d, m, md, C), N, zeros, eng);
+            h.check("C10|multi_channel.all_zero_weights_generator_advanced_by_reported_calls_times_d_plus_one_times_raw",
+                h.truth(eng.position == pos0 + r.calls() * (d + 1) * SYM_RAW_PER_CANONICAL && r.calls() == N));
+        }
+        catch (std::exception const&)
+        {
+            h.event("all-zero weight vector rejected by an exception");
+        }
+        return;
+    }
 
     hep::multi_channel_result<T> result = (f.dist_kinds > 0)
         ? hep::multi_channel_iteration(hep::make_multi_channel_integrand<T>(f, d, m, md, C,
